@@ -35,6 +35,14 @@ Theorem C06_invariant : forall T roles s tid c s' ev,
   table_wf T = true -> tinv T roles s -> tstep T roles s tid c = Some (s', ev) -> tinv T roles s'.
 Proof. exact tstep_inv. Qed.
 
+(* Mutual exclusion: in a state satisfying the invariant, a mutex that one thread holds exclusively according to
+   its node's certificate is not held, in any mode, by another thread. *)
+Theorem C06_mutual_exclusion : forall T roles s t1 t2 n1 n2 nd1 nd2 m e,
+  tinv T roles s -> t1 <> t2 ->
+  pc s t1 = Some n1 -> find_node T n1 = Some nd1 -> In (m, true) (n_ls nd1) ->
+  pc s t2 = Some n2 -> find_node T n2 = Some nd2 -> In (m, e) (n_ls nd2) -> False.
+Proof. exact mutual_exclusion. Qed.
+
 (* Any number of threads, any schedule, any branches: for every location whose conflicting access pairs all
    share a mutex (held exclusively by one of the two at least), no reachable state is a race state. *)
 Theorem C06_race_free : forall T roles sched s tr,
